@@ -101,3 +101,16 @@ CLAIMS["C07"] = {
     "note": "Trusted: numpy element-wise semantics (where, maximum, minimum, isclose, boolean masks). The straddle step that makes "
             "lower < pred < upper is C06's rule and is assumed here only to restrict the enumerated states (lower < upper).",
 }
+
+CLAIMS["C09"] = {
+    "technique": "propositional row-set analysis: pandas row filters / key-set differences / concat of get_units turned into boolean "
+                 "formulas over per-unit atoms (comparisons as lt/eq/gt relations) and compared with the documented rules by "
+                 "complete truth table; rational-function equality for derived quantities; argument binding by def-use terms",
+    "level": "Decides for all feeds, baselines, thresholds (including values exactly at a limit), blocklists, limits and outlier "
+             "settings: membership of each of the three frames equals the documented eligibility formula on every row of the truth "
+             "table (exhaustive, boundary cases included); first-listed reason wins with the documented names; derived quantities "
+             "follow their definitions and every stored quotient is NaN/inf-guarded with 0; defaults and the binding of each "
+             "get_units argument; baseline left join and both unreporting policies.",
+    "note": "Assumes unique unit ids and non-NaN compared values. The outlier model's own statistics are opaque (only that it "
+            "returns a row subset of its input and is gated by its switch is decided).",
+}
